@@ -139,7 +139,7 @@ int xmp_smix_play_instrument(xmp_context opaque, int ins, int note, int vol, int
 	memset(event, 0, sizeof (struct xmp_event));
 	event->note = (note < XMP_MAX_KEYS) ? note + 1 : note;
 	event->ins = ins + 1;
-	event->vol = vol + 1;
+	event->vol = (unsigned)vol + 1;	/* unsigned: no overflow for vol == INT_MAX */
 	event->_flag = 1;
 
 	return 0;
@@ -174,7 +174,7 @@ int xmp_smix_play_sample(xmp_context opaque, int ins, int note, int vol, int chn
 	memset(event, 0, sizeof (struct xmp_event));
 	event->note = (note < XMP_MAX_KEYS) ? note + 1 : note;
 	event->ins = mod->ins + ins + 1;
-	event->vol = vol + 1;
+	event->vol = (unsigned)vol + 1;	/* unsigned: no overflow for vol == INT_MAX */
 	event->_flag = 1;
 
 	return 0;
